@@ -232,6 +232,10 @@ pub fn p_canonization_res(num_vars: usize, res_perm: &mut [u8], all_swaps: &[u8]
     for i in 0..res_perm.len() {
         res_perm[i] = i as u8;
     }
+    if all_swaps.is_empty() {
+        // No permutation to apply with 0 or 1 variable
+        return;
+    }
     let mut ind = 0;
     for swap in all_swaps {
         let swp = *swap as usize;
@@ -296,8 +300,6 @@ pub fn npn_canonization_res(
     panic!();
 }
 
-// TODO: handle 0 and 1 input cases, where the flip or swap list may be empty
-
 pub fn p_canonization(num_vars: usize, table: &mut [u64], best: &mut [u64], res_perm: &mut [u8]) {
     if num_vars <= 6 {
         let best_ind =
@@ -311,6 +313,12 @@ pub fn p_canonization(num_vars: usize, table: &mut [u64], best: &mut [u64], res_
 }
 
 pub fn n_canonization(num_vars: usize, table: &mut [u64], best: &mut [u64]) -> u32 {
+    if num_vars == 0 {
+        // Only the output can be complemented: the canonical form is always zero
+        let flip = (table[0] & 1) as u32;
+        best[0] = 0;
+        return flip;
+    }
     if num_vars <= 6 {
         let best_ind =
             n_canonization_ind(num_vars, &mut table[0..1], &mut best[0..1], FLIPS[num_vars]);
@@ -328,6 +336,13 @@ pub fn npn_canonization(
     best: &mut [u64],
     res_perm: &mut [u8],
 ) -> u32 {
+    if num_vars <= 1 {
+        // No permutation possible: same as N canonization
+        for i in 0..res_perm.len() {
+            res_perm[i] = i as u8;
+        }
+        return n_canonization(num_vars, table, best);
+    }
     if num_vars <= 6 {
         let best_ind = npn_canonization_ind(
             num_vars,
